@@ -25,6 +25,7 @@ package c03
 // framing (C01's subject) and are not covered by any hash.
 
 import (
+	"bytes"
 	"fmt"
 	"strings"
 
@@ -73,6 +74,17 @@ func generateExtensions(r *ev.Run, a *artefact, d donors, rng *gen.Rand, emit fu
 		otherHash = searchHash(a.env, a.owner, d.same.x)
 	}
 
+	ownHash := searchHash(a.env, a.owner, a.x)
+	// junk never begins with the hash-function byte: eight random bytes would otherwise read as the start of a search hash
+	// (a framing prefix that parses as a hash is C01's known finding, not a modification of this value)
+	junk := func(n int) []byte {
+		b := gen.Bytes(rng, n)
+		if b[0] == hashFnSHA256 {
+			b[0] = 0x7e
+		}
+		return b
+	}
+
 	// 1. one byte in front of every field (offset 0 is "prepend", handled below)
 	for _, rg := range rs {
 		if rg.off == 0 {
@@ -97,17 +109,21 @@ func generateExtensions(r *ev.Run, a *artefact, d donors, rng *gen.Rand, emit fu
 		bs = append(bs, boundary{"container-header|envelope", a.envOff()})
 	}
 	for _, b := range bs {
-		emit(mutation{class: "insert:8bytes@" + b.name, desc: "8 random bytes", m: insertAt(y, b.off, gen.Bytes(rng, 8)), allow: orig})
+		emit(mutation{class: "insert:8bytes@" + b.name, desc: "8 random bytes", m: insertAt(y, b.off, junk(8)), allow: orig})
 		emit(mutation{class: "insert:tagbytes@" + b.name, desc: "envelope tag bytes", m: insertAt(y, b.off, []byte(`%%%""""""""`)), allow: orig})
 		emit(mutation{class: "insert:hash@" + b.name, desc: "search hash of another value of the client", m: insertAt(y, b.off, otherHash), allow: orig})
-		emit(mutation{class: "insert:own-hash@" + b.name, desc: "the value's own search hash once more", m: insertAt(y, b.off, searchHash(a.env, a.owner, a.x)), allow: orig})
+		emit(mutation{class: "insert:own-hash@" + b.name, desc: "the value's own search hash once more", m: insertAt(y, b.off, ownHash), allow: orig})
 		emit(mutation{class: "insert:second-envelope(same-client)@" + b.name, desc: "raw envelope of the same client", m: insertAt(y, b.off, d.same.raw()), allow: both})
 		emit(mutation{class: "insert:second-envelope(other-client)@" + b.name, desc: "raw envelope of another client", m: insertAt(y, b.off, d.other.raw()), allow: orig})
 	}
 	// 3. bytes in front of the whole value
 	emit(mutation{class: "prepend:1byte", desc: "prefix 00", m: gen.Cat([]byte{0}, y), allow: orig})
-	emit(mutation{class: "prepend:8bytes", desc: "8 random bytes", m: gen.Cat(gen.Bytes(rng, 8), y), allow: orig})
-	emit(mutation{class: "prepend:hash", desc: "search hash of another value in front of the whole value", m: gen.Cat(otherHash, y), allow: orig, hashSwapped: true})
+	emit(mutation{class: "prepend:8bytes", desc: "8 random bytes", m: gen.Cat(junk(8), y), allow: orig})
+	if bytes.Equal(otherHash, ownHash) {
+		r.Count("noop_modifications_skipped", 1) // one-byte plaintexts: the donor has the same plaintext, its hash is the right one
+	} else {
+		emit(mutation{class: "prepend:hash", desc: "search hash of another value in front of the whole value", m: gen.Cat(otherHash, y), allow: orig, hashSwapped: true})
+	}
 
 	// 4. a swapped search hash combined with an extension
 	if a.search {
@@ -118,16 +134,20 @@ func generateExtensions(r *ev.Run, a *artefact, d donors, rng *gen.Rand, emit fu
 		}{{"same-client", d.same}, {"other-client", d.other}, {"same-client,other-len", d.diff}} {
 			h := dn.b.y[:33]
 			rest := y[33:]
+			if bytes.Equal(h, own) {
+				r.Count("noop_modifications_skipped", 7) // same plaintext (one-byte plaintexts): not a swapped hash
+				continue
+			}
 			for _, v := range []struct {
 				ext string
 				m   []byte
 			}{
 				{"append:1byte", gen.Cat(h, rest, []byte{0})},
-				{"append:8bytes", gen.Cat(h, rest, gen.Bytes(rng, 8))},
+				{"append:8bytes", gen.Cat(h, rest, junk(8))},
 				{"append:second-envelope", gen.Cat(h, rest, dn.b.y)},
 				{"append:second-raw-envelope", gen.Cat(h, rest, dn.b.raw())},
 				{"insert:1byte@hash|envelope", gen.Cat(h, []byte{0}, rest)},
-				{"insert:8bytes@hash|envelope", gen.Cat(h, gen.Bytes(rng, 8), rest)},
+				{"insert:8bytes@hash|envelope", gen.Cat(h, junk(8), rest)},
 				{"insert:own-hash@hash|envelope", gen.Cat(h, own, rest)},
 			} {
 				emit(mutation{class: "swaphash(" + dn.tag + ")+" + v.ext, desc: "hash of another value in front of this envelope, and " + v.ext, m: v.m, allow: nil, hashSwapped: true})
